@@ -3,7 +3,7 @@
 # (HARM_PAR checks at a time, default 4)
 cd "$(dirname "$(readlink -f "$0")")/.."; V=$(pwd)
 props=$(python3 -c "import json;print(' '.join(c['property_id'] for c in json.load(open('MANIFEST.json'))['checks']))")
-for d in ${@:-seeded/harmless_*}; do
+for d in ${@:-seeded/harmless_*/}; do d=${d%/}
   tmp=$(mktemp -d /tmp/harm.XXXX); mkdir -p $tmp/repo; cp -r /repo/src $tmp/repo/
   (cd $tmp/repo && git init -q . && git apply $V/$d/patch.diff) || { echo "$d patch-does-not-apply"; rm -rf $tmp; continue; }
   b=$(basename $d)
